@@ -198,6 +198,9 @@ def build(variant, sources, name="vh", extra_flags=(), gen_sources=(), libs=()):
     hash of /repo/include, /repo/examples, the harness sources and flags."""
     comp, flags = VARIANTS[variant]
     flags = list(flags) + list(extra_flags)
+    if os.environ.get("VERIF_COV") and comp == "g++":
+        # coverage audit (tools/cov_audit.py): which lines of the library do the replayed cases reach
+        flags = [f for f in flags if not f.startswith("-O")] + ["-O0", "--coverage"]
     srcs = [os.path.join(HARNESS, s) for s in sources] + list(gen_sources)
     key = sha(tree_hash([os.path.join(REPO, "include"), os.path.join(REPO, "examples")]),
               tree_hash(sorted(glob.glob(os.path.join(HARNESS, "*.h")))), tree_hash(srcs), comp, " ".join(flags), " ".join(libs))
@@ -224,7 +227,7 @@ def build(variant, sources, name="vh", extra_flags=(), gen_sources=(), libs=()):
             for _, out in bad:
                 f.write(out + "\n")
         raise BuildError(errp, bad[0][1][-3000:])
-    cmd = [comp] + [f for f in flags if f.startswith("-fsanitize") or f in ("-g", "-pthread")] + [o for o, _, _ in results] + ["-o", binp + ".tmp"] + list(libs)
+    cmd = [comp] + [f for f in flags if f.startswith("-fsanitize") or f in ("-g", "-pthread", "--coverage")] + [o for o, _, _ in results] + ["-o", binp + ".tmp"] + list(libs)
     p = subprocess.run(cmd, stdout=subprocess.PIPE, stderr=subprocess.STDOUT, text=True)
     if p.returncode != 0:
         raise MachineryFailure("link failed: " + p.stdout[-2000:])
